@@ -65,6 +65,8 @@ pub struct Hist<'a> {
     pub build_err: String,
     pub item_size: usize,
     pub kb: HKb,
+    pub keymaps: Vec<Vec<(u64, u64, u64, u64, u64)>>,
+    pub keymap: BTreeMap<u64, u64>,
 }
 
 impl<'a> Hist<'a> {
@@ -77,6 +79,7 @@ impl<'a> Hist<'a> {
         let mut built_ok = false;
         let mut build_err = String::new();
         let mut item_size = 0;
+        let mut keymaps: Vec<Vec<(u64, u64, u64, u64, u64)>> = Vec::new();
         for e in evs {
             match &e.kind {
                 EvKind::Inv { client, idx, op, val } => {
@@ -123,6 +126,7 @@ impl<'a> Hist<'a> {
                 EvKind::Checkpoint { id, snap, quiescent } => {
                     cps.push(CpRec { seq: e.seq, now: e.now, id: *id, snap: snap.clone(), quiescent: *quiescent });
                 }
+                EvKind::KeyMap(km) => keymaps.push(km.clone()),
                 EvKind::Built { ok, err, item_size: sz } => {
                     built_ok = *ok;
                     build_err = err.clone();
@@ -131,11 +135,15 @@ impl<'a> Hist<'a> {
                 _ => {}
             }
         }
-        Hist { plan, evs, ops, cbs, cps, built_ok, build_err, item_size, kb: HKb(plan.cfg.keys.clone()) }
+        let keymap: BTreeMap<u64, u64> = if matches!(plan.cfg.keys, KeyMode::Typed { .. }) { keymaps.first().map(|km| km.iter().map(|x| (x.0, x.1)).collect()).unwrap_or_default() } else { BTreeMap::new() };
+        Hist { plan, evs, ops, cbs, cps, built_ok, build_err, item_size, kb: HKb(plan.cfg.keys.clone()), keymaps, keymap }
     }
 
     pub fn index_of(&self, k: u64) -> u64 {
-        self.kb.of(k).0
+        match self.keymap.get(&k) {
+            Some(i) => *i,
+            None => self.kb.of(k).0,
+        }
     }
 
     /// the last quiescent checkpoint strictly between two sequence numbers, if any
@@ -178,10 +186,17 @@ pub struct Violation {
     pub rule: String,
     pub seq: u64,
     pub detail: String,
+    /// key the violation is about, when there is one
+    #[serde(default)]
+    pub key: Option<u64>,
     /// stable fingerprint used for known-findings matching
     pub fingerprint: String,
 }
 
 pub fn viol(prop: &str, rule: &str, seq: u64, fingerprint: &str, detail: String) -> Violation {
-    Violation { prop: prop.into(), rule: rule.into(), seq, detail, fingerprint: fingerprint.into() }
+    Violation { prop: prop.into(), rule: rule.into(), seq, detail, key: None, fingerprint: fingerprint.into() }
+}
+
+pub fn violk(prop: &str, rule: &str, seq: u64, key: u64, fingerprint: &str, detail: String) -> Violation {
+    Violation { prop: prop.into(), rule: rule.into(), seq, detail, key: Some(key), fingerprint: fingerprint.into() }
 }
